@@ -23,10 +23,10 @@ ENGINES = {
     "C11": ("eng_front", "proof"),
     "C17": ("eng_examples", "other"),
     "C01": ("eng_core", "proof"),
-    "C02": ("eng_core", "other"),
+    "C02": ("eng_core", "proof"),
     "C03": ("eng_core", "proof"),
-    "C04": ("eng_core", "other"),
-    "C05": ("eng_core", "other"),
+    "C04": ("eng_core", "proof"),
+    "C05": ("eng_core", "proof"),
     "C06": ("eng_core", "proof"),
     "C07": ("eng_core", "proof"),
     "C08": ("eng_core", "proof"),
